@@ -7,11 +7,13 @@ reason it was accepted after reading the code).
 """
 from __future__ import annotations
 
+import ast
+
 from dataclasses import dataclass, field
 from typing import Dict, List, Optional, Sequence, Set, Tuple
 
 from ..context import Ctx
-from ..program import AnalysisError
+from ..program import own_nodes, AnalysisError
 from ..report import RuleResult
 from ..tables import EXC_DISCHARGE
 from . import conds
@@ -162,7 +164,10 @@ def run(ctx: Ctx, entry_name: str) -> RuleResult:
     escapes, reached = ef.entry_escapes(roots, self_class=self_class, blocked=blocked, own_only=e.own_only)
     for q in e.must_reach:
         if q not in p.functions:
-            raise AnalysisError(f"R-EXC[{e.name}]: anchor function vanished: {q}")
+            mv = p.moved(q)
+            if mv is None:
+                raise AnalysisError(f"R-EXC[{e.name}]: anchor function vanished: {q}")
+            q = mv.qualname
         res.require(q in reached, f"[{e.name}] call graph no longer reaches {q} from the entry (resolution broken or "
                                   f"delegation removed)")
     allowed = set(e.allowed)
@@ -182,7 +187,8 @@ def run(ctx: Ctx, entry_name: str) -> RuleResult:
         if any(ef.h.is_sub(rp.exc, a) for a in allowed):
             res.ok(site, f"{rp.exc} is within the allowed set {sorted(allowed)}", nontrivial=True)
             continue
-        d = lookup_discharge(e.name, rp.fn, rp.text, rp.exc, rp.kind)
+        rf = p.functions.get(rp.fn)
+        d = lookup_discharge(e.name, rp.fn, rp.text, rp.exc, rp.kind, _locals_of(rf) if rf is not None else frozenset())
         failed = ""
         if d is not None:
             if d.get("cond"):
@@ -224,13 +230,49 @@ def _same_module(a: str, b: str) -> bool:
     return strip_cls(ma) == strip_cls(mb) or strip_cls(a) == strip_cls(mb) or strip_cls(ma) == strip_cls(b)
 
 
-def lookup_discharge(entry: str, fn: str, text: str, exc: str, kind: str = "") -> Optional[dict]:
+def _locals_of(f) -> frozenset:
+    names = set(f.params)
+    for n in own_nodes(f.node):
+        if isinstance(n, ast.Name) and isinstance(n.ctx, (ast.Store, ast.Del)):
+            names.add(n.id)
+        elif isinstance(n, ast.ExceptHandler) and n.name:
+            names.add(n.name)
+    return frozenset(names)
+
+
+def _alpha(text: str, local_names) -> str:
+    """the construct text with every local variable name replaced by `_`: a table entry must not depend on how a
+    refactoring names its temporaries"""
+    try:
+        tree = ast.parse(text)
+    except SyntaxError:
+        return text
+
+    class A(ast.NodeTransformer):
+        def visit_Name(self, n: ast.Name):
+            if n.id in local_names or n.id.startswith("_h"):
+                return ast.copy_location(ast.Name(id="_", ctx=n.ctx), n)
+            return n
+
+    try:
+        return ast.unparse(A().visit(tree))
+    except Exception:
+        return text
+
+
+def lookup_discharge(entry: str, fn: str, text: str, exc: str, kind: str = "", local_names=frozenset()) -> Optional[dict]:
+    atext = None
     for d in EXC_DISCHARGE:
         if "kind" in d:
             if d["kind"] != kind or not (d["fn"] == fn or _same_module(d["fn"], fn)):
                 continue
-        elif d["text"] != text or not (d["fn"] == fn or _same_module(d["fn"], fn)):
+        elif not (d["fn"] == fn or _same_module(d["fn"], fn)):
             continue
+        elif d["text"] != text:
+            if atext is None:
+                atext = _alpha(text, local_names)
+            if _alpha(d["text"], local_names) != atext:
+                continue
         if d.get("exc") not in (None, "*", exc):
             continue
         ents = d.get("entries")
